@@ -224,12 +224,20 @@ size_t carquet_bitunpack_32(const uint8_t* input, size_t count,
 
     /* Handle remaining values */
     if (i < count) {
+        /* The input only holds the bytes of the remaining values, not a full
+         * 8-value group: unpack from a zero-padded copy instead of reading past it. */
         uint32_t temp[8];
-        carquet_bitunpack8_32(input + bytes_consumed, bit_width, temp);
+        uint8_t tail[32] = {0};
+        size_t tail_bytes = carquet_packed_size(count - i, bit_width);
+        if (tail_bytes > sizeof(tail)) {
+            tail_bytes = sizeof(tail);
+        }
+        memcpy(tail, input + bytes_consumed, tail_bytes);
+        carquet_bitunpack8_32(tail, bit_width, temp);
         for (size_t j = 0; j < count - i; j++) {
             values[i + j] = temp[j];
         }
-        bytes_consumed += carquet_packed_size(count - i, bit_width);
+        bytes_consumed += tail_bytes;
     }
 
     return bytes_consumed;
